@@ -17,6 +17,14 @@ Theorem C15_elsewhere_raises : forall w g,
 Proof. exact elsewhere_raises. Qed.
 Print Assumptions C15_elsewhere_raises.
 
+(* the same cell spelled out for the MAIN greenlet (parent None) of another live thread, running
+   there: having no parent does not make it the asker's own main greenlet -- every thread has one *)
+Theorem C15_foreign_main_raises : forall w g,
+  g_parent g = None -> g_frame g = None -> g_active g = true -> g_current g = false ->
+  unwrap_greenlet w g = GRaise.
+Proof. intros w g _. exact (elsewhere_raises w g). Qed.
+Print Assumptions C15_foreign_main_raises.
+
 (* the greenlet making the call: exactly its own portion of the running stack *)
 Theorem C15_current_own : forall w g tc,
   wf w -> g_frame g = None -> g_active g = true -> g_current g = true ->
